@@ -332,7 +332,10 @@ def evaluate__exp(self: XPathFunction, context: ta.ContextType = None) -> ta.One
     arg: ta.NumericType = self.get_argument(self.context or context, cls=NumericProxy)
     if arg is None:
         return []
-    return math.exp(arg)
+    try:
+        return math.exp(arg)
+    except OverflowError:
+        return math.inf if arg > 0 else 0.0
 
 
 @method(function('exp10', prefix='math', nargs=1, sequence_types=('xs:double?', 'xs:double?')))
@@ -340,7 +343,12 @@ def evaluate__exp10(self: XPathFunction, context: ta.ContextType = None) -> ta.O
     arg: ta.NumericType = self.get_argument(self.context or context, cls=NumericProxy)
     if arg is None:
         return []
-    return float(10 ** arg)
+    try:
+        if not isinstance(arg, int) or abs(arg) > 400:
+            arg = float(arg)
+        return float(10 ** arg)
+    except OverflowError:
+        return math.inf if arg > 0 else 0.0
 
 
 @method(function('log', prefix='math', nargs=1, sequence_types=('xs:double?', 'xs:double?')))
@@ -373,9 +381,14 @@ def evaluate__pow(self: XPathFunction, context: ta.ContextType = None) -> ta.One
         return math.copysign(float('inf'), x) if (y % 2) == 1 else float('inf')
 
     try:
+        if isinstance(x, decimal.Decimal) or isinstance(y, decimal.Decimal) or \
+                isinstance(y, int) and abs(y) > 1100:
+            x, y = float(x), float(y)
         return float(x ** y)
     except TypeError:
         return math.nan
+    except OverflowError:
+        return -math.inf if x < 0 and y % 2 == 1 else math.inf
 
 
 @method(function('sqrt', prefix='math', nargs=1,
